@@ -320,6 +320,11 @@ CLAIMS = {
         ref="§5 C09"),
 }
 
+# per-property overrides written after an extension pass: tools/claims/Cxx.json = {text, note, technique}
+for _f in sorted((ROOT / 'tools' / 'claims').glob('C*.json')):
+    _c = json.loads(_f.read_text())
+    CLAIMS[_f.stem] = dict(CLAIMS.get(_f.stem, {}), **_c)
+
 # built but temporarily withdrawn while being adapted to a repaired /repo
 PENDING = set()
 
